@@ -1,2 +1,3 @@
+@property
 def spec(self):
     return chain.from_iterable(((((n0, n1), c) for n1, c in g.items()) for n0, g in self.cells_.items()))
